@@ -239,7 +239,7 @@ fn c14_width<C: CellType>(args: &Args, t: &mut Tally, rng: &mut Rng, exhaustive_
         }
         t.inc(&format!("i{bits}.pairs_exhaustive"), 1);
     }
-    if bits == 8 && args.shard == 0 {
+    if bits == 8 && args.shard == 0 && !cfg!(miri) {
         for b in 0..=255u64 {
             for e in 0..=255u64 {
                 if let Some(w) = check_pow(C::from_u64(b), C::from_u64(e)) {
@@ -257,10 +257,13 @@ fn c14_width<C: CellType>(args: &Args, t: &mut Tally, rng: &mut Rng, exhaustive_
         }
         t.inc("i8.pow_exhaustive", 1);
     }
-    // structured grid: every (tz(n), tz(d)) pair
+    // structured grid: every (tz(n), tz(d)) pair (under Miri: a diagonal sample)
     for tn in 0..=bits {
         for td in 0..=bits {
-            for _ in 0..4 {
+            if cfg!(miri) && (tn + 3 * td + args.shard as u32) % 37 != 0 {
+                continue;
+            }
+            for _ in 0..(if cfg!(miri) { 1 } else { 4 }) {
                 let on = rng.next() | 1;
                 let od = rng.next() | 1;
                 let n = if tn == bits { 0 } else { (on << tn) & m };
@@ -718,26 +721,11 @@ pub fn batched<F: Fn(u64) -> Option<String>>(from: u64, to: u64, _per_batch: u64
 }
 
 fn scratch_add(i: usize, n: u64) {
-    #[cfg(not(miri))]
-    {
-        crate::sys::shared().scratch[i] += n;
-    }
-    #[cfg(miri)]
-    {
-        let _ = (i, n);
-    }
+    crate::sys::shared().scratch[i] += n;
 }
 
 fn scratch_get(i: usize) -> u64 {
-    #[cfg(not(miri))]
-    {
-        crate::sys::shared().scratch[i]
-    }
-    #[cfg(miri)]
-    {
-        let _ = i;
-        0
-    }
+    crate::sys::shared().scratch[i]
 }
 
 // =================================================================================================
